@@ -345,7 +345,12 @@ def run(rep, pdb, tier):
             def toklist(e):
                 b = e.value[2][2][1]
                 return b[0] == "call" and str(b[1]).endswith("collect") and b[2][0] == "call" and str(b[2][1]).endswith("split_whitespace")
-            unfiltered = tok(p_, i) and tok(s_, i2) and toklist(p_) and toklist(s_) and p_.value[2][2][1] == s_.value[2][2][1] and ri_[2] == ("len", p_.value[2][2][1])
+            # the coordinates are collected in a fresh empty vector that then REPLACES self.nodes
+            nb = rc.binds.get(p_.target[1]) if p_.target[0] == "var" else None
+            nfresh = nb is not None and nb.init is not None and rc.term(nb.init)[0] == "call" and str(rc.term(nb.init)[1]).endswith("::empty") and len(rc.term(nb.init)) == 2
+            repl = [e for e in effects(pdb, rc) if e.kind == "assign" and e.target == NODES and e.value == p_.target]
+            replaces = nfresh and len(repl) == 1
+            unfiltered = replaces and tok(p_, i) and tok(s_, i2) and toklist(p_) and toklist(s_) and p_.value[2][2][1] == s_.value[2][2][1] and ri_[2] == ("len", p_.value[2][2][1])
             okr = iscoord and isvar and slot and unfiltered and rv is not None and rv[1:4] == (num(0), NV, False)
         rep.add("io-agreement", rule, bool(okw and okr), w["body"], "writer record = coordinate + nvars values: %s; reader stride nvars+1 with matching field order: %s" % (okw, okr), where=loc(w["body"]))
     rep.floor("flat-index/", 16)
